@@ -110,3 +110,32 @@ pub fn c17_replay_holds(mins: &HashSet<u8>, hours: &HashSet<u8>, doms: &HashSet<
     assert!(r.days as i64 * 1440 + (r.nanoseconds / 60_000_000_000) as i64 == w);
     assert!(s.last_schedule == Some(r));
 }
+/// replay by scanning clock values: for the schedule the solver returned, the real next() is compared with the
+/// minute-by-minute search from three clock values on each of `ndays` days (concrete runs, used only to turn a
+/// piece-level counterexample into an observable one)
+pub fn c17_replay_scan_holds(mins: &HashSet<u8>, hours: &HashSet<u8>, doms: &HashSet<u8>, months: &HashSet<u8>, dows: &HashSet<u8>, from_day: i32, ndays: u32) {
+    let (dom_r, dow_r) = (doms.len() != 31, dows.len() != 7);
+    let first = from_day as i64 * 1440;
+    let span = (ndays as i64 + 800) * 1440;
+    let mut matching: Vec<i64> = Vec::new();
+    let mut w = first;
+    while w < first + span {
+        let (d, n) = ((w.div_euclid(1440)) as i32, (w.rem_euclid(1440)) as u64 * 60_000_000_000);
+        if spec_c17_matches(mins, hours, doms, months, dows, dom_r, dow_r, d, n) { matching.push(w); }
+        w += 1;
+    }
+    for day in 0..ndays as i64 {
+        for secs in [30u64, 43_140, 86_339] {
+            let now = dt(from_day + day as i32, secs * 1_000_000_000, 0);
+            let now_min = (from_day as i64 + day) * 1440 + (secs / 60) as i64;
+            let idx = matching.partition_point(|&m| m <= now_min);
+            if idx >= matching.len() { continue; }
+            let mut s = CronSchedule {
+                minutes: mins.clone(), hours: hours.clone(), days_of_month: doms.clone(), months: months.clone(), days_of_week: dows.clone(),
+                last_schedule: None, now: Some(now),
+            };
+            let r = s.next().unwrap();
+            assert!(r.nanoseconds % 60_000_000_000 == 0 && r.days as i64 * 1440 + (r.nanoseconds / 60_000_000_000) as i64 == matching[idx]);
+        }
+    }
+}
